@@ -204,6 +204,25 @@ func GetRoles(P *Program) *Roles {
 		if len(found) == 1 {
 			return found[0]
 		}
+		if len(found) > 1 {
+			// a helper extracted from the role function carries the trait too: the role is the candidate that calls the
+			// others (directly), when exactly one candidate is called by no other candidate
+			var outer []*ssa.Function
+			for _, f := range found {
+				calledByOther := false
+				for _, g := range found {
+					if g != f && len(callsToFn(g, f)) > 0 {
+						calledByOther = true
+					}
+				}
+				if !calledByOther {
+					outer = append(outer, f)
+				}
+			}
+			if len(outer) == 1 {
+				return outer[0]
+			}
+		}
 		if len(found) == 0 {
 			miss(role)
 		} else {
